@@ -58,10 +58,13 @@ let rt_name = function
 
 let rt_line id src convs =
   let b = bytes_of_hex src in
-  if not (strings_in_domain false b) then id ^ " N=U C=U"
-  else
-    let conv = mk_conv convs in
-    Printf.sprintf "%s N=%s C=%s" id (rt_name (fst (roundtrip conv false b))) (rt_name (fst (roundtrip conv true b)))
+  let conv = mk_conv convs in
+  match front_parse conv false b with
+  | POk r when clean r ->
+    (* the quoting oracle is only needed once something is printed *)
+    if not (strings_in_domain false b) then id ^ " N=U C=U"
+    else Printf.sprintf "%s N=%s C=%s" id (rt_name (fst (roundtrip conv false b))) (rt_name (fst (roundtrip conv true b)))
+  | _ -> id ^ " N=notclean C=notclean"
 
 (* format twice: f(src) and f(f(src)) in one mode *)
 let fmt2 conv compact (b : n list) : string =
